@@ -44,6 +44,11 @@ DERIVED: Dict[str, Dict[str, Tuple[Tuple[str, ...], str]]] = {
     },
 }
 
+# field -> field it can stand in for (a lossless image, one reason each)
+EQUIVALENT: Dict[str, Dict[str, Tuple[str, str]]] = {
+    "SelectRowsNode": {"expr": ("ops", "ops is the one-entry dict {'expr': expr}; the constructor rejects any other size")},
+}
+
 # fields that evaluators may read but that do not define the pipeline's meaning (one reason each)
 ADVISORY: Dict[str, Dict[str, str]] = {
     "TableDescription": {
@@ -250,6 +255,34 @@ class NodeModel:
                     if cparam in fps:
                         for bp in bps:
                             k.feeds.setdefault(bp, set()).add(f)
+
+
+def feeds_for(model: "NodeModel", k: NodeKind, callee: FuncInfo) -> Dict[str, Set[str]]:
+    """which fields of node kind k each parameter of `callee` feeds, where callee is k's primary builder,
+    a public builder delegating to it (extend -> extend_parsed_), or (leaf nodes) the constructor"""
+    if callee is k.builder:
+        return k.feeds
+    if callee is k.init:
+        out: Dict[str, Set[str]] = {}
+        for f, ps in k.init_fields.items():
+            for pp in ps:
+                out.setdefault(pp, set()).add(f)
+        return out
+    out = {}
+    if k.builder is None:
+        return out
+    for call in [c for c in ast.walk(callee.node) if isinstance(c, ast.Call) and isinstance(c.func, ast.Attribute)
+                 and c.func.attr == k.builder.name]:
+        bm = bind_map(call, k.builder)
+        g = cfgmod.build(callee.node)
+        d = depsmod.Deps(g, callee.params())
+        node = g.containing_node(call)
+        for p2, arg in bm.items():
+            roots = d.roots_at(node, arg)
+            for p1 in callee.params():
+                if p1 in roots:
+                    out.setdefault(p1, set()).update(k.feeds.get(p2, set()))
+    return out
 
 
 def _attr_reads(fnode: ast.AST, receiver: str) -> Set[str]:
